@@ -1,6 +1,6 @@
 SPECIFICATION TraceSpec
 CONSTANTS
-  StepKinds = {"q", "upd", "ins", "del", "ups", "dup", "ddl", "multi", "prep", "prepx", "prepq", "updw", "qfu"}
+  StepKinds = {"q", "upd", "ins", "del", "ups", "dup", "ddl", "multi", "prep", "prepx", "prepq", "updw", "qfu", "drop"}
   MaxSteps = 100
   Gtx = {TRUE, FALSE}
   Lits = {TRUE, FALSE}
